@@ -370,3 +370,14 @@ pub fn min_non_zero_cap_mailq(size: usize) -> usize {
         1
     }
 }
+
+/// Stub for `<String as Clone>::clone`: the deadline/matched/rejected status sites clone the topic and type
+/// NAME strings into the DataReaderAsync/DataWriterAsync handle carried by the listener mail. The strings live
+/// in heap-allocated entities (opaque to CBMC's constant propagation), so each clone is an allocation and a
+/// memcpy of symbolic length through pointers whose value sets contain every byte buffer of the model
+/// (measured: the SAT encoding of one check_missed_writer_deadline call ran out of 12 GB). The handle's name
+/// strings are in no claim (the recorder stub for MpscSender::send forgets the mail).
+///   #[kani::stub(<alloc::string::String as core::clone::Clone>::clone, super::support_part2::string_clone_stub)]
+pub fn string_clone_stub(_s: &String) -> String {
+    String::new()
+}
